@@ -29,6 +29,7 @@ func init() {
 			{Name: "failed-call-never-removed", File: "clients/datasource/cache.go", Old: "	// Store value in regular cache.\n	if c.err == nil {\n		rq.cache[key] = c.val\n	}\n", New: "	if c.err != nil {\n		return c.val, c.err\n	}\n	rq.cache[key] = c.val\n", Rule: "D2-single-flight", Site: "pending-removed"},
 			{Name: "sibling-append-aliasing", File: "guidedremediation/internal/strategy/common/common.go", Old: "go doPatch(append(slices.Clone(r.VulnIDs), v))", New: "go doPatch(append(r.VulnIDs, v))", Rule: "D3-spawn-sharing", Site: "ComputePatches"},
 			{Name: "counter-missed", File: "guidedremediation/internal/strategy/common/common.go", Old: "				go doPatch(append(r.VulnIDs, newlyAdded...)) // No need to clone r.VulnIDs here\n				toProcess++", New: "				go doPatch(append(r.VulnIDs, newlyAdded...)) // No need to clone r.VulnIDs here", Rule: "D4-fanout", Site: "ComputePatches"},
+			{Name: "counter-missed-in-range-loop", File: "guidedremediation/internal/strategy/common/common.go", Old: "					go doPatch(append(slices.Clone(r.VulnIDs), v))\n					toProcess++", New: "					go doPatch(append(slices.Clone(r.VulnIDs), v))", Rule: "D4-fanout", Site: "ComputePatches"},
 			{Name: "no-dedupe", File: "guidedremediation/internal/strategy/common/common.go", Old: "	allResults = slices.CompactFunc(allResults, func(a, b result.Patch) bool { return cmpFn(a, b) == 0 })\n", New: "", Rule: "D4-fanout", Site: "sorted-compacted"},
 			{Name: "status-counter-unlocked", File: "extractor/filesystem/filesystem.go", Old: "	wc.statusMu.Lock()\n	wc.extractCalls++\n	wc.statusMu.Unlock()\n", New: "	wc.extractCalls++\n", Rule: "D1-lockset", Site: "extractCalls"},
 			{Name: "cache-cloned-after-unlock", File: "clients/datasource/cache.go", Old: "	rq.mu.Lock()\n	defer rq.mu.Unlock()\n\n	return maps.Clone(rq.cache)\n", New: "	rq.mu.Lock()\n	m := rq.cache\n	rq.mu.Unlock()\n\n	return maps.Clone(m)\n", Rule: "D1-lockset", Site: "GetMap"},
@@ -680,10 +681,42 @@ func c16Patches(p *Prog, r *Report) {
 	if recv != nil {
 		recvHdr = loopHeaderOf(recv.Block())
 	}
+	// the pending counter: the value the receive loop's `counter > 0` test reads, and everything that
+	// flows into it through phis and constant additions (a range loop's own index increment is not it)
+	feeds := map[ssa.Value]bool{}
+	if recvHdr != nil && len(recvHdr.Instrs) > 0 {
+		if iff, ok := recvHdr.Instrs[len(recvHdr.Instrs)-1].(*ssa.If); ok {
+			if cmp, ok := iff.Cond.(*ssa.BinOp); ok {
+				var walk func(v ssa.Value, d int)
+				walk = func(v ssa.Value, d int) {
+					if v == nil || feeds[v] || d > 12 {
+						return
+					}
+					switch x := v.(type) {
+					case *ssa.Phi:
+						feeds[x] = true
+						for _, e := range x.Edges {
+							walk(e, d+1)
+						}
+					case *ssa.BinOp:
+						if _, isK := constInt(x.Y); isK && (x.Op == token.ADD || x.Op == token.SUB) {
+							feeds[x] = true
+							walk(x.X, d+1)
+						}
+					}
+				}
+				walk(cmp.X, 0)
+				walk(cmp.Y, 0)
+			}
+		}
+	}
 	// counter phi: incremented next to every go
 	isInc := func(in ssa.Instruction) bool {
 		bo, ok := in.(*ssa.BinOp)
 		if !ok || bo.Op != token.ADD {
+			return false
+		}
+		if len(feeds) > 0 && !feeds[bo] {
 			return false
 		}
 		k, isK := constInt(bo.Y)
@@ -727,6 +760,29 @@ func c16Patches(p *Prog, r *Report) {
 			return false
 		}
 		wp := findPath(pointOf(g), goal, isInc, nil)
+		if wp != nil {
+			// the other order: the counter is incremented just before the spawn (a spawn helper that
+			// counts first): every path into this go — from the entry, from any spawn, from the head
+			// of an enclosing loop — passes an increment
+			starts := []Point{entryPoint(fn)}
+			for _, g2 := range gos {
+				starts = append(starts, pointOf(g2))
+			}
+			for _, h := range []*ssa.BasicBlock{hdr, recvHdr} {
+				if h != nil {
+					starts = append(starts, Point{h, -1})
+				}
+			}
+			before := true
+			for _, st := range starts {
+				if findPath(st, instrIs(g), isInc, nil) != nil {
+					before = false
+				}
+			}
+			if before {
+				wp = nil
+			}
+		}
 		r.Check(wp == nil, "D4-fanout", site+":counted", p.Pos(g.Pos()), "every spawn is followed by an increment of the pending counter", "a goroutine is spawned without incrementing the pending counter: its result is never received (the worker blocks forever on the channel) or results are lost")
 		// D3: argument freshness for spawns inside an inner loop of the receive loop
 		inner := hdr != nil && recvHdr != nil && hdr != recvHdr && naturalLoop(recvHdr)[hdr]
